@@ -23,6 +23,8 @@ func (s *State) evalAssignment(right object.Object, node *ast.InfixExpression) o
 		log.Warnf("Not assigning %q", right.Inspect())
 		return right
 	}
+	// Store the current value of a register (loop variable), not the register itself: its slot is reused by later loops.
+	right = object.CopyRegister(right)
 	switch node.Left.Value().Type() {
 	case token.DOT:
 		idxE, ok := node.Left.(*ast.IndexExpression)
@@ -408,7 +410,8 @@ func (s *State) evalMapLiteral(node *ast.MapLiteral) object.Object {
 		if value.Type() == object.ERROR {
 			return value
 		}
-		result = result.Set(key, value)
+		// registers (loop variables) are stored by value like in array literals.
+		result = result.Set(object.CopyRegister(key), object.CopyRegister(value))
 	}
 	return result
 }
